@@ -1,53 +1,50 @@
-import Gql.Proofs.Coerce
+import Gql.Proofs.VariablesTotal
+import Gql.Proofs.Conforms
+import Gql.Proofs.ConformsLiteral
+import Gql.Proofs.RoundTripMain
 /-!
 # C15 — Input coercion and input validation agree on values, literals and variables
 
-Property theorems only (lemmas: `Gql/Proofs/Coerce.lean`, `Gql/Proofs/Values.lean`).
+Property theorems only (lemmas: `Gql/Proofs/{Coerce,CoerceOneOf,LiteralBasics,CoerceLiteral*,
+Conforms,VariablesTotal,RoundTripLeaf,ScalarConforms,Values}.lean`).
 Models: `coerceValue`/`coerceLiteral` (coerce_input_value.py), `validateValue`/`validateLiteral`
 (validate_input_value.py), `valueToLiteral` (value_to_literal.py), `getVariableValues`
 (values.py), scalar and enum coercers (scalars.py, definition.py).
 
-`coerce_default_value` is the parameter `D`; the hypotheses on it are what schema validation
-guarantees.  Where only part of a clause is proved, the full statement is kept as a
-`def … _full : Prop` and the proved part is named `…_partial`; the unproved remainder is
-covered on every run by the correspondence check and the implementation-side oracles of
-`checks/c15.py`.
+`coerce_default_value` is the parameter `D`.  The hypotheses are what schema validation and
+Python itself guarantee, spelled out:
+* `TmWF D tm`: defaults valid (`D` returns), OneOf fields nullable and without defaults, no enum
+  with internal value `None`, field names of an input object pairwise different;
+* `v.WF`: dict keys pairwise different (true of every Python dict);
+* `l.Unique`: object literals have unique field names (`UniqueInputFieldNamesRule`);
+* `VarOK vars l t`: a bare variable without runtime value at a nullable position is "no value"
+  (callers test it first) — the one excluded case.
+All clauses of the property are proved; no `_full` statement remains open.
 -/
 namespace Gql.Props.C15
 open Gql Gql.Values Gql.Generated.ScalarConsts
 
-/-! ### hypotheses (well-formed type maps) -/
-
-/-- OneOf input objects have no field defaults (schema validation rule). -/
-def OneOfNoDefaults (D : Field → R) (tm : TypeMap) : Prop :=
-  ∀ n fields, tm.find n = some (.inputObject fields true) → ∀ f ∈ fields, D f = .ok .undefined
-
-/-- No enum has `None` as an internal value. -/
-def EnumsNonNull (tm : TypeMap) : Prop :=
-  ∀ n e, tm.find n = some (.enum e) → ∀ k, e.valueOf k ≠ some .none
-
-/-- Python dict keys are unique, recursively; field names of an input object are unique. -/
-def FieldsNodup (tm : TypeMap) : Prop :=
-  ∀ n fields o, tm.find n = some (.inputObject fields o) → (fields.map (·.name)).Nodup
-
 /-! ### coercion succeeds ⇔ validation reports nothing (values) -/
 
-/-- Full statement of `coerce_iff_valid` for values: for every well-formed type map (OneOf
-objects included), every value and every type, `coerce_input_value` returns a value (not
-`Undefined`, no exception) exactly when `validate_input_value` reports no error. -/
-def coerce_iff_valid_value_full : Prop :=
-  ∀ (c : PyConv) (D : Field → R) (tm : TypeMap), DefaultsTotal D → OneOfNoDefaults D tm → EnumsNonNull tm →
-    FieldsNodup tm →
-    ∀ (v : PyVal) (t : InType),
-      (∃ cv, coerceValue c D tm v t = .ok cv ∧ cv ≠ .undefined) ↔ validateInputValue c tm v t = []
+/-- C15-1 (values). For every well-formed type map — any nesting of list/non-null over the
+built-in scalars, enums, recursive input objects with defaults **and OneOf input objects** —
+every Python value and every type: `coerce_input_value` never raises, and it returns a value
+other than `Undefined` exactly when `validate_input_value` reports no error. -/
+theorem coerce_iff_valid_value (c : PyConv) (D : Field → R) (tm : TypeMap) (hW : TmWF D tm)
+    (v : PyVal) (hv : v.WF) (t : InType) :
+    (∃ cv, coerceValue c D tm v t = .ok cv ∧ cv ≠ .undefined) ↔ validateInputValue c tm v t = [] := by
+  obtain ⟨cv, hcv, hiff⟩ := coerce_validate_value_full c D tm hW v t [] hv
+  unfold validateInputValue
+  rw [hiff, hcv]
+  constructor
+  · rintro ⟨cv', h1, h2⟩
+    simp only [Out.ok.injEq] at h1
+    subst h1
+    exact h2
+  · intro h; exact ⟨cv, rfl, h⟩
 
-/-- C15-1 (values), proved for every type map **without OneOf input objects** (arbitrary
-nesting of list/non-null over the built-in scalars, enums and recursive input objects with
-defaults): `coerce_input_value` never raises, and it returns a value other than `Undefined`
-exactly when `validate_input_value` reports no error. Missing for the full statement: the
-OneOf post-check (exactly-one-field counting), which is covered by the correspondence run and
-the `value-iff` oracle. -/
-theorem coerce_iff_valid_value_partial (c : PyConv) (D : Field → R) (tm : TypeMap)
+/-- The same without OneOf objects needs no hypothesis on enums, field names or dict keys. -/
+theorem coerce_iff_valid_value_noOneOf (c : PyConv) (D : Field → R) (tm : TypeMap)
     (hD : DefaultsTotal D) (hO : NoOneOf tm) (v : PyVal) (t : InType) :
     (∃ cv, coerceValue c D tm v t = .ok cv ∧ cv ≠ .undefined) ↔ validateInputValue c tm v t = [] := by
   obtain ⟨cv, hcv, hiff⟩ := coerce_validate_value c D tm hD hO v t []
@@ -62,10 +59,9 @@ theorem coerce_iff_valid_value_partial (c : PyConv) (D : Field → R) (tm : Type
 
 /-- C15-1b. `coerce_input_value` never raises when defaults are valid: every exception of a leaf
 coercer is swallowed, and the only `TypeError` it can raise itself is that of an invalid default. -/
-theorem coerce_value_no_crash (c : PyConv) (D : Field → R) (tm : TypeMap)
-    (hD : DefaultsTotal D) (hO : NoOneOf tm) (v : PyVal) (t : InType) :
-    ∃ cv, coerceValue c D tm v t = .ok cv :=
-  let ⟨cv, h, _⟩ := coerce_validate_value c D tm hD hO v t []
+theorem coerce_value_no_crash (c : PyConv) (D : Field → R) (tm : TypeMap) (hW : TmWF D tm)
+    (v : PyVal) (hv : v.WF) (t : InType) : ∃ cv, coerceValue c D tm v t = .ok cv :=
+  let ⟨cv, h, _⟩ := coerce_validate_value_full c D tm hW v t [] hv
   ⟨cv, h⟩
 
 /-- C15-1c (wrong containers). At an input-object position every non-null value that is not a
@@ -94,89 +90,91 @@ example : (PyVal.mapping [([120], .int 1)]).isNullish = false ∧ (PyVal.mapping
 
 /-- The error paths do not matter for agreement: validation is silent at one path prefix iff it
 is silent at any other. -/
-theorem validate_silent_path_independent (c : PyConv) (D : Field → R) (tm : TypeMap)
-    (hD : DefaultsTotal D) (hO : NoOneOf tm) (v : PyVal) (t : InType) (p q : Path) :
+theorem validate_silent_path_independent (c : PyConv) (D : Field → R) (tm : TypeMap) (hW : TmWF D tm)
+    (v : PyVal) (hv : v.WF) (t : InType) (p q : Path) :
     validateValue c tm v t p = [] ↔ validateValue c tm v t q = [] := by
-  obtain ⟨cv, hcv, hp⟩ := coerce_validate_value c D tm hD hO v t p
-  obtain ⟨cv', hcv', hq⟩ := coerce_validate_value c D tm hD hO v t q
+  obtain ⟨cv, hcv, hp⟩ := coerce_validate_value_full c D tm hW v t p hv
+  obtain ⟨cv', hcv', hq⟩ := coerce_validate_value_full c D tm hW v t q hv
   rw [hcv] at hcv'
   simp only [Out.ok.injEq] at hcv'
   subst hcv'
   rw [hp, hq]
 
+/-! ### coercion succeeds ⇔ validation reports nothing (literals) -/
+
+/-- C15-1 (literals), static and with a variable map. For every well-formed type map (OneOf
+included), every literal with unique field names — constant when validated statically
+(`vars = none`), arbitrary with a variable map — at every type: `coerce_input_literal` never
+raises, and returns a value other than `Undefined` exactly when `validate_input_literal` reports
+no error. Lists (a missing variable in a list becomes null), objects (a missing variable counts
+as an absent field), OneOf (exactly one field, not null, variable with a non-null runtime value)
+and the leaf coercers are all covered. -/
+theorem coerce_iff_valid_literal (c : PyConv) (D : Field → R) (tm : TypeMap) (hW : TmWF D tm)
+    (vars : Option VarValues) (l : Lit) (t : InType)
+    (hconst : vars = none → l.isConst = true) (hu : l.Unique) (hok : VarOK vars l t) :
+    (∃ cv, coerceLiteral c D tm vars l t = .ok cv ∧ cv ≠ .undefined) ↔
+      validateInputLiteral c tm vars l t = [] := by
+  obtain ⟨cv, hcv, hiff⟩ := coerce_validate_literal_full c D tm hW vars l t [] hconst hu hok
+  unfold validateInputLiteral
+  rw [hiff, hcv]
+  constructor
+  · rintro ⟨cv', h1, h2⟩
+    simp only [Out.ok.injEq] at h1
+    subst h1
+    exact h2
+  · intro h; exact ⟨cv, rfl, h⟩
+
+/-- `coerce_input_literal` never raises on such literals. -/
+theorem coerce_literal_no_crash (c : PyConv) (D : Field → R) (tm : TypeMap) (hW : TmWF D tm)
+    (vars : Option VarValues) (l : Lit) (t : InType)
+    (hconst : vars = none → l.isConst = true) (hu : l.Unique) (hok : VarOK vars l t) :
+    ∃ cv, coerceLiteral c D tm vars l t = .ok cv :=
+  let ⟨cv, h, _⟩ := coerce_validate_literal_full c D tm hW vars l t [] hconst hu hok
+  ⟨cv, h⟩
+
+/-- C15-4 `rule_iff_coerce`. `ValuesOfCorrectTypeRule` calls `validate_input_literal` statically
+(no variable map) on the argument literal and reports each of its errors, so its verdict on a
+constant argument is `validateInputLiteral … none`; it accepts the argument exactly when
+`coerce_input_literal` returns a value. (That the rule is this call is checked on the
+implementation by the correspondence `ValuesOfCorrectTypeRule` and the `rule-iff` oracle.) -/
+theorem rule_iff_coerce (c : PyConv) (D : Field → R) (tm : TypeMap) (hW : TmWF D tm)
+    (l : Lit) (t : InType) (hc : l.isConst = true) (hu : l.Unique) :
+    validateInputLiteral c tm none l t = [] ↔
+      (∃ cv, coerceLiteral c D tm none l t = .ok cv ∧ cv ≠ .undefined) := by
+  have hav : l.asVar = none := by
+    cases h : l.asVar with
+    | none => rfl
+    | some x => rw [Lit.not_const_of_var h] at hc; cases hc
+  exact (coerce_iff_valid_literal c D tm hW none l t (fun _ => hc) hu (VarOK_of_not_var hav)).symm
+
+/-- The one excluded case is real: a bare variable without runtime value at a nullable type
+coerces to `Undefined` ("no value") while validation is silent. -/
+example : coerceLiteral ⟨fun _ => none, fun _ => none, fun _ => none, fun _ => [], fun _ => none⟩
+      (fun _ => .ok .undefined) [] (some ⟨[], []⟩) (.var [120]) (.named [73]) = .ok .undefined ∧
+    validateInputLiteral ⟨fun _ => none, fun _ => none, fun _ => none, fun _ => [], fun _ => none⟩
+      [] (some ⟨[], []⟩) (.var [120]) (.named [73]) = [] := by
+  constructor
+  · rw [coerceLiteral]; simp [Lit.asVar, varGet, PyVal.dictGet, PyVal.isNullish, InType.isNonNull]
+  · unfold validateInputLiteral; rw [validateLiteral]
+    simp [Lit.asVar, varGet, PyVal.dictGet, PyVal.isNullish, InType.isNonNull]
+
 /-! ### a result conforms to the type -/
 
-/-- the leaf part of "conforms": 32-bit Int, finite Float, text, boolean -/
-def ScalarConforms : Scalar → PyVal → Prop
-  | .int, r => ∃ n : Int, r = .int n ∧ -(2 ^ 31) ≤ n ∧ n ≤ 2 ^ 31 - 1
-  | .float, r => ∃ neg m e, r = .float (.fin neg m e)
-  | .string, r => ∃ s, r = .str s
-  | .boolean, r => ∃ b, r = .bool b
-  | .id, r => ∃ s, r = .str s
+abbrev ScalarConforms := Gql.Values.ScalarConforms
 
 /-- C15-2 (leaf clause, values): whatever Python value is supplied, a built-in scalar's input
 coercion yields a 32-bit Int / a finite Float (a `float`, also for an `int` input) / text / a
 bool — or rejects. -/
 theorem scalar_value_conforms (c : PyConv) (s : Scalar) (v r : PyVal)
-    (h : s.coerceValue c v = .ok r) : ScalarConforms s r := by
-  cases s <;> simp only [Scalar.coerceValue] at h <;> simp only [ScalarConforms]
-  · cases v <;> simp only [coerceInt, coerceIntFromInt, coerceIntFromFloat] at h
-    all_goals try (simp at h; done)
-    all_goals repeat' split at h
-    all_goals try (simp at h; done)
-    all_goals (rename_i hr; simp only [Out.ok.injEq] at h; subst h; exact ⟨_, rfl, not_inIntRange (by simpa using hr)⟩)
-  · cases v <;> simp only [coerceFloat, coerceFloatFromFloat, coerceFloatFromInt] at h
-    all_goals try (simp at h; done)
-    · split at h
-      · simp at h
-      · rename_i num _
-        cases num <;> simp only [PyFloat.toIntPy] at h
-        all_goals try (simp at h; done)
-        split at h
-        · simp at h
-        · simp only [Out.ok.injEq] at h; subst h; exact ⟨_, _, _, rfl⟩
-    · rename_i f
-      split at h
-      · simp at h
-      · simp only [Out.ok.injEq] at h; subst h
-        cases f <;> simp_all [PyFloat.isFinite]
-  · cases v <;> simp only [coerceString] at h
-    all_goals try (simp at h; done)
-    simp only [Out.ok.injEq] at h; subst h; exact ⟨_, rfl⟩
-  · cases v <;> simp only [coerceBoolean] at h
-    all_goals try (simp at h; done)
-    simp only [Out.ok.injEq] at h; subst h; exact ⟨_, rfl⟩
-  · cases v <;> simp only [coerceID, coerceIdFromFloat, strOfIntPy] at h
-    all_goals try (simp at h; done)
-    all_goals repeat' split at h
-    all_goals try (simp at h; done)
-    all_goals (simp only [Out.ok.injEq] at h; subst h; exact ⟨_, rfl⟩)
+    (h : s.coerceValue c v = .ok r) : ScalarConforms s r :=
+  scalar_value_conforms' c s v r h
 
 /-- C15-2 (leaf clause, literals): the same for literals. For Float this is the theorem that did
 **not** hold on the code as found: `parse_float_literal` returned `float('1e1000') = inf`
 (witness below); it holds for the repaired code (repo_patches/float_literal_finite.diff). -/
 theorem scalar_literal_conforms (c : PyConv) (s : Scalar) (l : Lit) (r : PyVal)
-    (h : s.coerceLiteral c l = .ok r) : ScalarConforms s r := by
-  cases s <;> simp only [Scalar.coerceLiteral] at h <;> simp only [ScalarConforms]
-  · cases l <;> simp only [parseIntLiteral] at h
-    all_goals try (simp at h; done)
-    repeat' split at h
-    all_goals try (simp at h; done)
-    rename_i hr; simp only [Out.ok.injEq] at h; subst h; exact ⟨_, rfl, not_inIntRange (by simpa using hr)⟩
-  · cases l <;> simp only [parseFloatLiteral] at h
-    all_goals try (simp at h; done)
-    all_goals repeat' split at h
-    all_goals try (simp at h; done)
-    all_goals (rename_i f _ hf; simp only [Out.ok.injEq] at h; subst h; cases f <;> simp_all [PyFloat.isFinite])
-  · cases l <;> simp only [parseStringLiteral] at h
-    all_goals try (simp at h; done)
-    simp only [Out.ok.injEq] at h; subst h; exact ⟨_, rfl⟩
-  · cases l <;> simp only [parseBooleanLiteral] at h
-    all_goals try (simp at h; done)
-    simp only [Out.ok.injEq] at h; subst h; exact ⟨_, rfl⟩
-  · cases l <;> simp only [parseIDLiteral] at h
-    all_goals try (simp at h; done)
-    all_goals (simp only [Out.ok.injEq] at h; subst h; exact ⟨_, rfl⟩)
+    (h : s.coerceLiteral c l = .ok r) : ScalarConforms s r :=
+  scalar_literal_conforms' c s l r h
 
 /-- the code as found: `return float(value_node.value)` without a finiteness test -/
 def parseFloatLiteralAsFound (c : PyConv) : Lit → R
@@ -213,37 +211,28 @@ theorem enum_value_conforms (e : EnumType) (v r : PyVal) (h : e.coerceInputValue
       · simp [ih hw]
   · simp at h
 
-/-- Full statement of `coerced_conforms` (kept as the obligation; see `Conforms`). -/
-inductive Conforms (D : Field → R) (tm : TypeMap) : InType → PyVal → Prop where
-  | null (t : InType) : t.isNonNull = false → Conforms D tm t .none
-  | nonNull (t : InType) (cv : PyVal) : cv ≠ .none → Conforms D tm t cv → Conforms D tm (.nonNull t) cv
-  | list (t : InType) (cs : List PyVal) : (∀ x ∈ cs, Conforms D tm t x) → Conforms D tm (.list t) (.list cs)
-  | scalar (n : List Nat) (s : Scalar) (cv : PyVal) : tm.find n = some (.scalar s) → ScalarConforms s cv →
-      Conforms D tm (.named n) cv
-  | enum (n : List Nat) (e : EnumType) (name : List Nat) (cv : PyVal) : tm.find n = some (.enum e) →
-      (name, cv) ∈ e.values → Conforms D tm (.named n) cv
-  | obj (n : List Nat) (fields : List Field) (oneOf : Bool) (es : List (List Nat × PyVal)) :
-      tm.find n = some (.inputObject fields oneOf) →
-      -- exactly the declared fields, in declared order …
-      (es.map (·.1)).Sublist (fields.map (·.name)) →
-      (∀ k cv, (k, cv) ∈ es → ∀ f ∈ fields, f.name = k → Conforms D tm f.type cv) →
-      -- … non-null fields present, defaults applied …
-      (∀ f ∈ fields, (f.type.isNonNull = true ∨ D f ≠ .ok .undefined) → f.name ∈ es.map (·.1)) →
-      -- … and exactly one non-null entry for OneOf
-      (oneOf = true → ∃ k cv, es = [(k, cv)] ∧ cv ≠ .none) →
-      Conforms D tm (.named n) (.dict es)
+/-- C15-2 `coerced_conforms` (values). Every value `coerce_input_value` returns conforms to the
+type in the sense of `Gql.Values.Conforms`: 32-bit Int, finite Float, text, boolean, a declared
+enum value; lists of conforming items; for input objects exactly the declared fields in declared
+order, each conforming, with non-null and defaulted fields present; exactly one entry that is not
+`None` for OneOf; and `None` only where the type is nullable. `DefaultsConform` asks of
+`coerce_default_value` that its own results conform. -/
+theorem coerced_conforms (c : PyConv) (D : Field → R) (tm : TypeMap) (hW : TmWF D tm)
+    (hDC : DefaultsConform D tm) (v : PyVal) (t : InType) (cv : PyVal)
+    (h : coerceValue c D tm v t = .ok cv) (hu : cv ≠ .undefined) : Conforms D tm t cv :=
+  coerceValue_conforms c D tm hW hDC v t [] cv h hu
 
-def coerced_conforms_full : Prop :=
-  ∀ (c : PyConv) (D : Field → R) (tm : TypeMap), DefaultsTotal D → OneOfNoDefaults D tm → EnumsNonNull tm →
-    FieldsNodup tm → (∀ f cv, D f = .ok cv → cv ≠ .undefined → Conforms D tm f.type cv) →
-    ∀ (v : PyVal) (t : InType) (cv : PyVal),
-      coerceValue c D tm v t = .ok cv → cv ≠ .undefined → Conforms D tm t cv
+/-- C15-2 `coerced_conforms` (literals). The same for every value `coerce_input_literal` returns
+for a constant literal with unique field names: it conforms to the type — in particular a Float
+literal never yields a non-finite float (the defect of the code as found, see
+`scalar_literal_conforms`). -/
+theorem coerced_conforms_literal (c : PyConv) (D : Field → R) (tm : TypeMap) (hW : TmWF D tm)
+    (hDC : DefaultsConform D tm) (l : Lit) (t : InType) (cv : PyVal) (hc : l.isConst = true) (hu : l.Unique)
+    (h : coerceLiteral c D tm none l t = .ok cv) (hcu : cv ≠ .undefined) : Conforms D tm t cv :=
+  coerceLiteral_conforms c D tm hW hDC l t [] hc hu cv h hcu
 
-/-- C15-2 (non-null clause, proved): under a non-null type the result is never `None` — a
-nullish input is rejected. (The structural clauses of `Conforms` for lists and objects are
-checked on the implementation for every generated case by the `value-conform` /
-`literal-conform` oracles.) -/
-theorem coerced_conforms_nonNull_partial (c : PyConv) (D : Field → R) (tm : TypeMap) (v : PyVal) (t : InType)
+/-- C15-2 (non-null clause, direct form): a nullish input under a non-null type is rejected. -/
+theorem nullish_under_nonNull_rejected (c : PyConv) (D : Field → R) (tm : TypeMap) (v : PyVal) (t : InType)
     (hv : v.isNullish = true) : coerceValue c D tm v (.nonNull t) = .ok .undefined := by
   rw [coerceValue]; simp [hv]
 
@@ -257,145 +246,86 @@ theorem null_is_valid_nullable (c : PyConv) (D : Field → R) (tm : TypeMap) (v 
   | list t' => rw [coerceValue, validateValue]; simp [hv]
   | named n => rw [coerceValue, validateValue]; simp [hv]
 
-/-! ### literals -/
+/-! ### literal round trip -/
 
-def coerce_iff_valid_literal_full : Prop :=
-  ∀ (c : PyConv) (D : Field → R) (tm : TypeMap), DefaultsTotal D → OneOfNoDefaults D tm → EnumsNonNull tm →
-    FieldsNodup tm →
-    ∀ (vars : Option VarValues) (l : Lit) (t : InType),
-      -- constant literals are validated statically; variable-bearing ones against the map
-      (vars = none → l.isConst = true) →
-      -- a bare variable without runtime value is "no value", which callers test first
-      (∀ x, l = .var x → varGet vars x ≠ .undefined) →
-      -- unique field names (UniqueInputFieldNamesRule)
-      True →
-      ((∃ cv, coerceLiteral c D tm vars l t = .ok cv ∧ cv ≠ .undefined) ↔ validateInputLiteral c tm vars l t = [])
+/-- C15-3 `literal_roundtrip` at leaf types (all five built-in scalars and enums), under the
+CPython laws `RoundTripLaws` (`int(str(z)) = z`, `float(repr(f)) = f`, `float(str(z)) = float(z)`,
+`str()` succeeds for every int that converts to float, `float()` succeeds for 32-bit ints):
+whenever the leaf type's input coercion accepts a value, its `value_to_literal` yields a literal
+and its `coerce_input_literal` reads that literal back as exactly the coerced value. -/
+theorem literal_roundtrip_leaf (c : PyConv) (hL : RoundTripLaws c) (leaf : Leaf) (v : PyVal)
+    (hu : leafValue c leaf v ≠ .undefined) :
+    ∃ l, leafToLiteral c leaf v = some l ∧ leafLiteral c leaf l = leafValue c leaf v :=
+  leaf_roundtrip c hL leaf v hu
 
-/-- C15-1 (literals, leaf clause, proved): at a leaf type the literal coercer returns a value
-exactly when the literal validator is silent — both call the same `coerce_input_literal` of the
-scalar/enum and swallow or report every exception. -/
-theorem coerce_iff_valid_literal_leaf_partial (c : PyConv) (D : Field → R) (tm : TypeMap) (vars : Option VarValues)
-    (n : List Nat) (d : NamedDef) (leaf : Leaf) (hf : tm.find n = some d) (hl : d.asLeaf = some leaf)
-    (l : Lit) (hv : l.asVar = none) (hn : l.isNull = false) :
-    (∃ cv, coerceLiteral c D tm vars l (.named n) = .ok cv ∧ cv ≠ .undefined) ↔
-      validateInputLiteral c tm vars l (.named n) = [] := by
-  unfold validateInputLiteral
-  rw [coerceLiteral, validateLiteral]
-  cases d with
-  | scalar s =>
-    simp only [NamedDef.asLeaf, Option.some.injEq] at hl; subst hl
-    simp only [hv, hn, hf, Bool.false_eq_true, ↓reduceIte]
-    by_cases hd : isDefined (leafLiteral c (.scalar s) l) = true
-    · simp [hd, (isDefined_iff _).1 hd]
-    · have : leafLiteral c (.scalar s) l = .undefined := by
-        by_cases h : leafLiteral c (.scalar s) l = .undefined
-        · exact h
-        · exact absurd ((isDefined_iff _).2 h) hd
-      simp [this, isDefined]
-  | enum e =>
-    simp only [NamedDef.asLeaf, Option.some.injEq] at hl; subst hl
-    simp only [hv, hn, hf, Bool.false_eq_true, ↓reduceIte]
-    by_cases hd : isDefined (leafLiteral c (.enum e) l) = true
-    · simp [hd, (isDefined_iff _).1 hd]
-    · have : leafLiteral c (.enum e) l = .undefined := by
-        by_cases h : leafLiteral c (.enum e) l = .undefined
-        · exact h
-        · exact absurd ((isDefined_iff _).2 h) hd
-      simp [this, isDefined]
-  | inputObject fields o => simp [NamedDef.asLeaf] at hl
-
-/-- `rule_iff_coerce`: `ValuesOfCorrectTypeRule` calls `validate_input_literal` statically on the
-argument literal, so for a constant argument its verdict is `validateInputLiteral … none`; the
-rule/coercion agreement is `coerce_iff_valid_literal_full` at `vars = none` (leaf clause proved
-above; checked on the implementation by the `rule-iff` oracle through `validate()`). -/
-def rule_iff_coerce_full : Prop :=
-  ∀ (c : PyConv) (D : Field → R) (tm : TypeMap), DefaultsTotal D → OneOfNoDefaults D tm → EnumsNonNull tm →
-    FieldsNodup tm → ∀ (l : Lit) (t : InType), l.isConst = true →
-      ((∃ cv, coerceLiteral c D tm none l t = .ok cv ∧ cv ≠ .undefined) ↔ validateInputLiteral c tm none l t = [])
-
-/-- `literal_roundtrip`, full statement: converting an accepted value to a literal and coercing
-the literal gives the same result. The conversions of CPython enter through three laws. -/
-structure RoundTripLaws (c : PyConv) : Prop where
-  int_str : ∀ z s, c.strOfInt z = some s → c.intOfStr s = some z
-  float_str : ∀ f, f.isFinite = true → c.floatOfStr (c.strOfFloat f) = some f
-  float_int_str : ∀ z s, c.strOfInt z = some s → c.floatOfStr s = c.floatOfInt z
-
-def literal_roundtrip_full : Prop :=
-  ∀ (c : PyConv) (D : Field → R) (tm : TypeMap), RoundTripLaws c → DefaultsTotal D → EnumsNonNull tm →
-    ∀ (v : PyVal) (t : InType) (cv : PyVal),
-      coerceValue c D tm v t = .ok cv → cv ≠ .undefined →
-      ∃ l, valueToLiteral c tm v t = some l ∧ coerceLiteral c D tm none l t = .ok cv
-
-/-- `literal_roundtrip` for String, Boolean and ID values (proved; no law needed): the literal
-produced by the scalar's `value_to_literal` is read back by its `coerce_input_literal` as exactly
-the coerced value. (Int/Float need the `RoundTripLaws`; lists and objects the induction — both are
-checked on the implementation by the `roundtrip-*` oracles.) -/
-theorem literal_roundtrip_text_partial (c : PyConv) (s : List Nat) (b : Bool) :
-    (stringValueToLiteral c (.str s) = .ok (some (.str s)) ∧ parseStringLiteral (.str s) = coerceString (.str s)) ∧
-    (booleanValueToLiteral c (.bool b) = .ok (some (.bool b)) ∧ parseBooleanLiteral (.bool b) = coerceBoolean (.bool b)) ∧
-    (∃ l, idValueToLiteral c (.str s) = .ok (some l) ∧ parseIDLiteral l = coerceID c (.str s)) := by
-  refine ⟨⟨by simp [stringValueToLiteral, defaultLit], rfl⟩, ⟨by simp [booleanValueToLiteral, defaultLit], rfl⟩, ?_⟩
-  by_cases h : isIntegerString s = true
-  · exact ⟨.int s, by simp [idValueToLiteral, h], rfl⟩
-  · exact ⟨.str s, by simp [idValueToLiteral, h], rfl⟩
+/-- C15-3 `literal_roundtrip`. For every well-formed type map (OneOf included), every Python
+value (dict keys unique) and every type: if `coerce_input_value` accepts the value with result
+`cv`, then `value_to_literal` produces a literal (never a variable) and `coerce_input_literal`
+— without variables — reads that literal back as exactly `cv`. Through lists (a non-iterable value
+becomes a list of one on both routes), through input objects (omitted fields pick up the same
+defaults on the way back), through OneOf, and at every leaf under the CPython laws
+`RoundTripLaws`. -/
+theorem literal_roundtrip (c : PyConv) (D : Field → R) (tm : TypeMap) (hL : RoundTripLaws c) (hW : TmWF D tm)
+    (v : PyVal) (hv : v.WF) (t : InType) (cv : PyVal)
+    (h : coerceValue c D tm v t = .ok cv) (hu : cv ≠ .undefined) :
+    ∃ l, valueToLiteral c tm v t = some l ∧ l.asVar = none ∧ coerceLiteral c D tm none l t = .ok cv :=
+  valueToLiteral_roundtrip c D tm hL hW v t [] hv cv h hu
 
 /-! ### variables -/
 
-def variables_total_full : Prop :=
-  ∀ (c : PyConv) (D : Field → R) (tm : TypeMap), DefaultsTotal D → OneOfNoDefaults D tm → EnumsNonNull tm →
-    FieldsNodup tm → ∀ (defs : List VarDef) (inputs : List (List Nat × PyVal)),
-      (∃ errs, getVariableValues c D tm defs inputs = .ok (.inl errs) ∧ errs ≠ []) ∨
-      (∃ vv, getVariableValues c D tm defs inputs = .ok (.inr vv) ∧
-        ∀ d ∈ defs, (dictGetDefined inputs d.name ≠ none ∨ d.default ≠ none) →
-          ∃ cv, PyVal.dictGet vv.coerced d.name = some cv)
+/-- C15-5 `variables_total`. For every well-formed type map, every list of variable definitions
+(default literals constant with unique field names — what the grammar and
+`UniqueInputFieldNamesRule` give) and every input dict: `get_variable_values` never raises and
+returns either a non-empty list of errors, or variable values that contain a coerced value for
+every variable that is provided or has a default. A variable is never silently dropped. -/
+theorem variables_total (c : PyConv) (D : Field → R) (tm : TypeMap) (hW : TmWF D tm)
+    (defs : List VarDef) (inputs : List (List Nat × PyVal))
+    (hin : InputsWF inputs) (hd : ∀ d ∈ defs, d.DefaultOK) :
+    (∃ errs, getVariableValues c D tm defs inputs = .ok (.inl errs) ∧ errs ≠ []) ∨
+    (∃ vv, getVariableValues c D tm defs inputs = .ok (.inr vv) ∧
+      ∀ d ∈ defs, (dictGetDefined inputs d.name ≠ none ∨ d.default ≠ none) →
+        ∃ cv, PyVal.dictGet vv.coerced d.name = some cv) :=
+  getVariableValues_total c D tm hW defs inputs hin hd
 
-/-- C15-5 (one variable, proved for type maps without OneOf objects): processing a *provided*
-variable never raises and either records a coerced value for it or reports at least one
-error — it is never silently dropped. This is where `coerce ok ⇔ validation silent` is used:
-a failed coercion always finds a validation error to report. -/
-theorem variables_step_total_partial (c : PyConv) (D : Field → R) (tm : TypeMap)
-    (hD : DefaultsTotal D) (hO : NoOneOf tm) (inputs : List (List Nat × PyVal)) (d : VarDef) (t : InType)
-    (value : PyVal) (st : VarState) (ht : d.type = some t) (hv : dictGetDefined inputs d.name = some value) :
-    ∃ st', coerceVariable c D tm inputs d st = .ok st' ∧
-      ((∃ cv, st'.coerced = st.coerced ++ [(d.name, cv)] ∧ st'.errors = st.errors) ∨
-       (st'.coerced = st.coerced ∧ st.errors.length < st'.errors.length)) := by
-  obtain ⟨cv, hcv, hiff⟩ := coerce_validate_value c D tm hD hO value t []
-  unfold coerceVariable
-  simp only [ht, hv, hcv]
-  by_cases hu : cv = .undefined
-  · subst hu
-    refine ⟨_, rfl, Or.inr ⟨rfl, ?_⟩⟩
-    have hne : validateInputValue c tm value t ≠ [] := by
-      unfold validateInputValue
-      intro h
-      exact (hiff.1 h) rfl
-    simp only [List.length_append, List.length_map]
-    have : 0 < (validateInputValue c tm value t).length := List.length_pos_iff.2 hne
-    omega
-  · cases cv <;> first | exact absurd rfl hu | exact ⟨_, rfl, Or.inl ⟨_, rfl, rfl⟩⟩
+/-! ### non-vacuity: a well-formed type map with a OneOf object exists -/
 
-/-! ### non-vacuity -/
-
-/-- a type map without OneOf objects: `input P { x: Int!, y: [Float] }` -/
+/-- `input P { x: Int!, y: [Float] }`, `input O @oneOf { a: Int, b: P }` -/
 def exTm : TypeMap :=
   [([73], .scalar .int), ([70], .scalar .float),
-   ([80], .inputObject [⟨[120], .nonNull (.named [73]), .none⟩, ⟨[121], .list (.named [70]), .none⟩] false)]
+   ([80], .inputObject [⟨[120], .nonNull (.named [73]), .none⟩, ⟨[121], .list (.named [70]), .none⟩] false),
+   ([79], .inputObject [⟨[97], .named [73], .none⟩, ⟨[98], .named [80], .none⟩] true)]
 
 def exD : Field → R := fun _ => .ok .undefined
 
-example : DefaultsTotal exD := fun _ => ⟨_, rfl⟩
+example : TmWF exD exTm where
+  defaults := fun _ => ⟨_, rfl⟩
+  oneOfNoDefaults := fun _ _ _ _ _ => rfl
+  oneOfNullable := by
+    intro n fields h f hf
+    simp only [exTm, TypeMap.find] at h
+    repeat' split at h
+    all_goals simp_all [InType.isNonNull]
+    all_goals (obtain ⟨rfl, _⟩ := h; simp at hf; rcases hf with rfl | rfl <;> rfl)
+  enumsNonNull := by
+    intro n e h
+    simp only [exTm, TypeMap.find] at h
+    repeat' split at h
+    all_goals simp_all
+  fieldsNodup := by
+    intro n fields o h
+    simp only [exTm, TypeMap.find] at h
+    repeat' split at h
+    all_goals simp_all
+    all_goals (obtain ⟨rfl, _⟩ := h; decide)
 
-example : NoOneOf exTm := by
-  intro n fields o h
-  simp only [exTm, TypeMap.find] at h
-  repeat' split at h
-  all_goals simp_all
-
--- the hypotheses of `variables_step_total_partial` / `coerce_iff_valid_value_partial` are met by
--- `{"x": 2147483648}` at type `P` (rejected: validation reports `x`), and by a nullish value
-example : ∃ kvs, (PyVal.dict [([120], .int 2147483648)]).asDict = some kvs ∧
-    dictGetDefined kvs [120] = some (.int 2147483648) ∧ coerceInt (.int 2147483648) = .err () ∧
-    coerceInt (.int 2147483647) = .ok (.int 2147483647) := ⟨_, rfl, rfl, rfl, rfl⟩
+-- a well-formed value for `O`, a literal with unique names, a variable definition with a default
+example : (PyVal.dict [([97], .int 1)]).WF ∧ (Lit.obj [([97], .int [49])]).Unique ∧
+    (VarDef.mk [118] (some (.named [79])) (some (.obj [([97], .int [49])]))).DefaultOK := by
+  refine ⟨by simp [PyVal.WF, PyVal.WFDict], by simp [Lit.Unique, Lit.UniqueFields], ?_⟩
+  intro dl h
+  simp only [Option.some.injEq] at h
+  subst h
+  exact ⟨rfl, by simp [Lit.Unique, Lit.UniqueFields]⟩
 
 example : parseFloatLiteral ⟨fun _ => none, fun _ => some (.inf false), fun _ => none, fun _ => [], fun _ => none⟩
     (.float [49, 101, 49, 48, 48, 48]) = .err () := rfl
